@@ -679,8 +679,8 @@ def main():
     if a.replay:
         blocks, kinds, ncorpus = [block_from_replay(json.load(open(a.replay)))], ["replay"], 0
     else:
-        scale = 1 if a.tier == "quick" else 40
-        plan = [("line", 220), ("free1", 80), ("block", 150), ("malformed", 40), ("other", 60)]
+        scale = 1 if a.tier == "quick" else 20
+        plan = [("line", 440), ("free1", 160), ("block", 300), ("malformed", 80), ("other", 120)]
         for kind, n in plan:
             for _ in range(n * scale):
                 blocks.append(gen_block(rng, kind))
